@@ -208,11 +208,14 @@ Theorem C13_match_qmark_only : forall cr name,
 Proof. exact match_qmark_only. Qed.
 
 (* a pattern without class and without literal '/' only matches names without
-   separator - PARTIAL: proved for names below 0x80 (one-byte runes); missing:
-   that the continuation bytes DecodeRune consumes are never '/' *)
-Theorem C13_pm_no_sep_partial : forall cks name,
-  pm cks name -> ascii name -> Forall (fun ck : pchunk => Forall op_nosep (snd ck)) cks -> sepfree name.
-Proof. exact pm_no_sep_partial. Qed.
+   separator (all names: the continuation bytes DecodeRune consumes are never '/') *)
+Theorem C13_pm_no_sep : forall cks name,
+  pm cks name -> Forall (fun ck : pchunk => Forall op_nosep (snd ck)) cks -> sepfree name.
+Proof. exact pm_no_sep. Qed.
+
+Theorem C13_decode_rune_consumed : forall c0 s,
+  c0 <> SLASH -> sepfree (firstn (snd (decode_rune (c0 :: s))) (c0 :: s)).
+Proof. exact decode_rune_consumed. Qed.
 
 (* completeness w.r.t. the declarative matcher - PARTIAL: for names without
    separator and below 0x80.  In general pm -> gm is FALSE (next example): Go's
